@@ -70,6 +70,10 @@ pub fn run(base: Instant, c: &Case, dump: bool) -> Out {
         cfg.cid_lifetime = Some(Duration::from_secs(2));
         cfg.ipv4 = c.v4;
         cfg.migration = c.kind != Kind::DisabledRebind;
+        if c.wl == Wl::W15 {
+            // the downloading client is really receive-only: no MTU probes of its own
+            cfg.client.mtud = crate::sim::Mtud::Off;
+        }
         let mut p = std_pair_pre(base, &cfg, c.wl, ReadMode::default(), |w| w.probe_pre = true);
         let genuine = p.w.nodes[CLIENT].addr;
         let attacker = a(c.v4, 9);
@@ -102,9 +106,17 @@ pub fn run(base: Instant, c: &Case, dump: bool) -> Out {
                             p.w.addr_latency.push((new1, Duration::from_millis(*extra_ms)));
                         }
                         rx_at_rebind = p.server().map_or(0, |s| s.app.obs.rx.values().map(|r| r.bytes).sum());
-                        apply_op(&mut p, &Op::Rebind(CLIENT, new1));
-                        // make sure the client has something to say from the new address
-                        apply_op(&mut p, &Op::Ping(CLIENT));
+                        if c.wl == Wl::W15 {
+                            // download: the old NAT mapping lingers for inbound datagrams, so the client
+                            // keeps receiving and everything it sends from the new address is an
+                            // acknowledgement (no ping)
+                            p.w.aliases.push((genuine, CLIENT));
+                            apply_op(&mut p, &Op::Rebind(CLIENT, new1));
+                        } else {
+                            apply_op(&mut p, &Op::Rebind(CLIENT, new1));
+                            // make sure the client has something to say from the new address
+                            apply_op(&mut p, &Op::Ping(CLIENT));
+                        }
                     }
                     Kind::Attacker { client_silent } => {
                         // take the next datagram the client emits: send a ping to be sure there is one
@@ -397,11 +409,11 @@ pub fn main(args: &Args) -> ! {
     let mut rep = Report::new("C15", args, "fault_enumeration");
     let thorough = args.tier == Tier::Thorough;
     let dl = deadline(if thorough { 1500 } else { 50 });
-    rep.rule = "E3/E2 on real endpoints with data flowing both ways (W2) or in bulk (W6) and CID rotation on: at EVERY step index after the handshake the client's source address changes (port only on IPv4, port only on IPv6, full address change, full address change to a path with 60 / 250 ms more one-way delay), a second migration follows after several gaps (also before the first is validated), an attacker delivers a copy of a genuine client datagram from a third address ahead of the original (client continuing / client silent afterwards), the server has migration disabled, or server datagrams reach the client from a foreign address; each combined with every single drop/dup/delay of one of the next 8 datagrams (those carrying PATH_CHALLENGE / PATH_RESPONSE). Oracles: once a PATH_RESPONSE echoing a challenge sent to the new address was delivered the server reports and uses only the new address and the workload completes; before that the 3x byte ledger bounds what goes there and challenge/response datagrams are >= 1200 bytes; a spoofed path is abandoned within 3 PTO, a genuine slower path that keeps answering is not abandoned; with migration not permitted nothing is sent to, and no data accepted from, the other address. Non-trivial = distinct trace hashes of runs in which the address event happened.".into();
+    rep.rule = "E3/E2 on real endpoints with data flowing both ways (W2), in bulk upstream (W6) or downstream (W15: the migrating client only acknowledges) and CID rotation on: at EVERY step index after the handshake the client's source address changes (port only on IPv4, port only on IPv6, full address change, full address change to a path with 60 / 250 ms more one-way delay), a second migration follows after several gaps (also before the first is validated), an attacker delivers a copy of a genuine client datagram from a third address ahead of the original (client continuing / client silent afterwards), the server has migration disabled, or server datagrams reach the client from a foreign address; each combined with every single drop/dup/delay of one of the next 8 datagrams (those carrying PATH_CHALLENGE / PATH_RESPONSE). Oracles: once a PATH_RESPONSE echoing a challenge sent to the new address was delivered the server reports and uses only the new address and the workload completes; before that the 3x byte ledger bounds what goes there and challenge/response datagrams are >= 1200 bytes; a spoofed path is abandoned within 3 PTO, a genuine slower path that keeps answering is not abandoned; with migration not permitted nothing is sent to, and no data accepted from, the other address. Non-trivial = distinct trace hashes of runs in which the address event happened.".into();
     let mut cases = vec![];
     // step counts of the baselines
     let mut steps_of = BTreeMap::new();
-    for (wl, v4) in [(Wl::W2, false), (Wl::W6, false), (Wl::W2, true), (Wl::W6, true)] {
+    for (wl, v4) in [(Wl::W2, false), (Wl::W6, false), (Wl::W2, true), (Wl::W6, true), (Wl::W15, false), (Wl::W15, true)] {
         let o = run(base, &Case { v4, wl, kind: Kind::ClientOffPath, at: u64::MAX, dev: None }, false);
         steps_of.insert((format!("{wl:?}"), v4), o.steps);
     }
@@ -424,6 +436,19 @@ pub fn main(args: &Args) -> ! {
                         }
                     }
                 }
+            }
+        }
+    }
+    // a download: the migrating client is receive-only (everything it sends from the new address is
+    // an acknowledgement)
+    for v4 in [false, true] {
+        let n = steps_of[&("W15".to_string(), v4)].min(if thorough { 150 } else { 60 });
+        for at in 6..n {
+            for k in [Kind::Rebind { full_ip: false }, Kind::Rebind { full_ip: true }, Kind::RebindSlow { extra_ms: 60 }] {
+                if v4 && !thorough && !matches!(k, Kind::Rebind { full_ip: false }) {
+                    continue;
+                }
+                cases.push(Case { v4, wl: Wl::W15, kind: k, at, dev: None });
             }
         }
     }
